@@ -322,7 +322,7 @@ class ParametricModelBaseMixin(object):
 
     @classmethod
     def _get_object_type_name(cls):
-        return "parametric_model"
+        return "model"
 
     def _calculate_total_error(self):
         # relative errors refer to the model values: make sure they are up to date first
